@@ -138,8 +138,6 @@ class C03(Check):
                 return False
             return True
         _, inner, pref, bt, do_tr, req = tr.op
-        if inner[0] == "join":
-            pref = str(tr.ctx.leaves[inner[1][0]].engine)
         parent = tr.parent_rel
         cur = str(parent.engine)
         if pref == cur:
